@@ -57,10 +57,16 @@ def setTh (d : DSt) (t : Th) : DSt := { d with ths := d.ths.map (fun u => if u.n
 
 /-- shift claim (atomic in the model); the reply shows the clones taken at selection time -/
 def doShift (d : DSt) (c n : Nat) (want : Option Nat) : DSt × String :=
+  -- a pass that only tries the guards skips the records whose guard is held; they stay indexed
+  let held := if d.guardUnderBeaconLock then [] else heldKeys d
+  let idx0 := d.sp.1.index
+  let d := if held.isEmpty then d else { d with sp := ({ d.sp.1 with index := idx0.filter (fun k => !held.contains k) }, d.sp.2) }
   let before := d.sp.1
   match doStep d (.shift c n want) with
   | none => (d, "ERR")
-  | some sp' =>
+  | some sp0 =>
+    let sp' := if held.isEmpty then sp0 else
+      ({ sp0.1 with index := idx0.filter (fun k => held.contains k || sp0.1.index.contains k) }, sp0.2)
     let taken := (sp'.1.batches.getLast?.map (·.got)).getD []
     let bad := (sp'.1.claimed.drop before.claimed.length).any (fun cl => !cl.ok)
     ({ d with sp := sp' }, s!"keys={showKeys before taken}" ++
@@ -86,6 +92,7 @@ def advance (d : DSt) (t : Th) : DSt × String :=
     let (d', r) := doShift d t.id t.how t.filt
     (setTh d' { t with stage := "done" }, s!"{t.name} done {r}")
   | "shiftexp", "shiftsel" => (setTh d { t with stage := "done" }, s!"{t.name} done {t.result}")
+  | "shiftexp", "guard" => (d, s!"{t.name} stuck")
   | "pexp", "cand" =>
     match doStep d (.pselect t.id t.how true) with
     | none => (d, "ERR")
